@@ -8,10 +8,16 @@ BASE_CFG = dict(min=0, max=3, lower=30, upper=60, up=80, slow=1, fast=2, soft=1,
 def fam(**kw):
     d = dict(G="a", NodeIds=["a1", "a2"], CfgC=copy.deepcopy(BASE_CFG), DryAll=False, AsgMin0=0, AsgMax0=3, AsgBoundsSet=[],
              KC=2, KM=2, MaxPend=1, EnvOn=[], FaultOps=[], MaxFaults=0, TaintKinds=["now"], InitNodes=2,
-             PropIds=[], EmitRate=0, invariants=["TypeOK", "Emit"], workers=16)
+             PropIds=[], EmitRate=0, invariants=["TypeOK", "Emit"], workers=16,
+             AV=dict(minNodes=0, created=[3], cordoned=[False], force=[False], nodel=[False], taint=[-1], run=[0], pend=[0], extra=[0], lost=[False], lock=[-1], delta=[0]))
     cfg = kw.pop("cfg", {})
+    av = kw.pop("av", None)
     d.update(kw)
     d["CfgC"].update(cfg)
+    if av:
+        d["AV"] = dict(d["AV"], **av)
+        d["init"], d["next"], d["view"] = "InitAll", "Stutter", None
+        d["invariants"] = ["TypeOK", "InvNoViolation", "InvTotal", "Emit"]
     return d
 
 ALLPROPS = ["C01", "C02", "C03", "C04", "C05", "C06", "C07", "C08", "C09", "C10", "C11", "C12", "C13", "C15", "C19", "C20"]
@@ -34,7 +40,13 @@ FAMILIES = {
                 FaultOps=["set_desired"], MaxFaults=1, cfg=dict(min=1, max=3), MaxPend=2, InitNodes=1),
     # scale up / down with untaint-before-buy, ties and failing writes
     "updown": fam(EnvOn=["Tick", "PodArrive", "PodSchedule", "PodFinish", "CloudLaunch", "Register", "ExtForce"],
-                  FaultOps=["get", "update"], MaxFaults=1, cfg=dict(min=0, max=2), AsgMax0=3, MaxPend=2),
+                  FaultOps=["get", "update", "terminate"], MaxFaults=1, cfg=dict(min=0, max=2), AsgMax0=3, MaxPend=2),
+    # force removal of several nodes (a terminate call failing midway) followed by a scale-up in the same scan
+    "forceup": fam(EnvOn=["PodArrive", "PodFinish", "ExtForce", "ExtTaint", "Restart"], FaultOps=["terminate", "update"], MaxFaults=1,
+                   cfg=dict(min=0, max=4), AsgMax0=5, MaxPend=3, KC=1, KM=1, InitNodes=2, NodeIds=["a1", "a2", "a3"]),
+    # an operator edits the ASG bounds of a group whose min / max are configured (not discovered)
+    "asgedit": fam(EnvOn=["Tick", "PodArrive", "PodFinish", "AsgEdit", "CloudLaunch", "Register"],
+                   cfg=dict(min=0, max=2), AsgMin0=0, AsgMax0=3, AsgBoundsSet=[[0, 1], [0, 2], [0, 3], [0, 4]], MaxPend=3, InitNodes=1),
     # dry mode (group flag)
     "dry": fam(EnvOn=["Tick", "PodArrive", "PodSchedule", "PodFinish", "ExtForce", "ExtTaint", "Cordon"],
                cfg=dict(dry=True, min=1), MaxPend=2),
@@ -43,9 +55,23 @@ FAMILIES = {
                 cfg=dict(auto=True, min=0, max=0), AsgMin0=0, AsgMax0=3, AsgBoundsSet=[[0, 3], [1, 3], [1, 2], [2, 3]], MaxPend=2),
 }
 
+# "for every cluster state" families: every well-typed state over small value sets is an initial state, one scan from each
+FAMILIES["all_reap"] = fam(av=dict(minNodes=1, cordoned=[False, True], force=[False, True], nodel=[False, True], taint=[-1, -2, -3, 0, 1, 2, 3], run=[0, 1], extra=[0, 1], lost=[False, True]),
+                           FaultOps=["terminate", "delete"], MaxFaults=1, cfg=dict(min=0), KC=1, KM=1, AsgMin0=0)
+FAMILIES["all_scale"] = fam(av=dict(minNodes=0, created=[3, 4], cordoned=[False, True], force=[False, True], taint=[-1, 0, 2], run=[0, 1, 2], pend=[0, 1, 3], extra=[0, 1], lock=[-1, 0, 1, 2], delta=[0, 1]),
+                            FaultOps=["get", "update", "set_desired"], MaxFaults=1, cfg=dict(min=1, max=3), AsgMax0=4, MaxPend=3)
+FAMILIES["all_dry"] = fam(av=dict(minNodes=0, created=[3, 4], cordoned=[False, True], force=[False, True], taint=[-1, 0, 3], run=[0, 1, 2], pend=[0, 1, 3], extra=[0, 1], lock=[-1, 1]),
+                          cfg=dict(min=1, max=3, dry=True), AsgMax0=4, MaxPend=3)
+
 # the quick tier shrinks the families so that each finishes in well under a minute; the thorough tier uses them as they
 # are (2 nodes) or with three nodes where that still terminates in minutes
 TIER_OVERRIDES = {
+    ("all_reap", "quick"): dict(AV=dict(minNodes=1, created=[3], cordoned=[False, True], force=[False, True], nodel=[False], taint=[-1, -2, 0, 2, 3], run=[0, 1], pend=[0], extra=[0, 1],
+                                        lost=[False], lock=[-1], delta=[0])),
+    ("all_scale", "quick"): dict(AV=dict(minNodes=0, created=[3, 4], cordoned=[False], force=[False], nodel=[False], taint=[-1, 0], run=[0, 1, 2], pend=[0, 3], extra=[0, 1],
+                                         lost=[False], lock=[-1, 1], delta=[0])),
+    ("all_dry", "quick"): dict(AV=dict(minNodes=0, created=[3, 4], cordoned=[False], force=[False, True], nodel=[False], taint=[-1, 0, 3], run=[0, 1], pend=[0, 3], extra=[0, 1],
+                                       lost=[False], lock=[-1, 1], delta=[0])),
     ("reap", "quick"): dict(KC=1, KM=1, EnvOn=["Tick", "PodArrive", "PodSchedule", "PodFinish", "ExtTaint"], TaintKinds=["now", "bad"]),
     ("force", "quick"): dict(KC=1, KM=1, EnvOn=["Tick", "PodArrive", "PodSchedule", "PodFinish", "ExtForce", "ExtTaint"], TaintKinds=["now"], FaultOps=["terminate"]),
     ("reap", "thorough"): dict(KC=1, KM=1, EnvOn=["Tick", "PodArrive", "PodSchedule", "PodFinish", "ExtTaint", "Restart", "NodeGone"], TaintKinds=["now", "bad", "zero"]),
@@ -53,7 +79,7 @@ TIER_OVERRIDES = {
     ("annot", "quick"): dict(KC=1, KM=1),
     ("cordon", "quick"): dict(KC=1, KM=1, EnvOn=["Tick", "PodArrive", "PodSchedule", "PodFinish", "Cordon", "Uncordon", "ExtTaint", "ExtForce"]),
     ("lock", "quick"): dict(KC=1, KM=1, MaxPend=1, EnvOn=["Tick", "PodArrive", "PodFinish", "CloudLaunch", "Register", "Cordon", "ExtForce", "Restart"]),
-    ("updown", "quick"): dict(MaxPend=2, EnvOn=["Tick", "PodArrive", "PodSchedule", "PodFinish", "CloudLaunch", "Register"]),
+    ("updown", "quick"): dict(MaxPend=2, EnvOn=["Tick", "PodArrive", "PodSchedule", "PodFinish", "CloudLaunch", "Register"], FaultOps=["get", "update"]),
     ("dry", "quick"): dict(MaxPend=1, EnvOn=["Tick", "PodArrive", "PodSchedule", "PodFinish", "ExtForce", "Cordon"]),
     ("auto", "quick"): dict(MaxPend=1, EnvOn=["Tick", "PodArrive", "PodFinish", "AsgEdit", "CloudLaunch", "Register"]),
 }
@@ -74,7 +100,7 @@ def tla_value(v):
     raise ValueError(v)
 
 CONSTS = ["G", "NodeIds", "CfgC", "DryAll", "AsgMin0", "AsgMax0", "AsgBoundsSet", "KC", "KM", "MaxPend", "EnvOn", "FaultOps",
-          "MaxFaults", "TaintKinds", "InitNodes", "PropIds", "EmitRate"]
+          "MaxFaults", "TaintKinds", "InitNodes", "PropIds", "EmitRate", "AV"]
 
 def write_sim_model(d, outdir, depth, name="MCSim"):
     """Escalator.tla family d as a simulation model that emits behaviours (EscalatorSim.tla)"""
@@ -102,6 +128,7 @@ def write_model(d, outdir, name="MC", init="Init", next_="Next", view="View"):
     lines.append("====")
     open("%s/%s.tla" % (outdir, name), "w").write("\n".join(lines) + "\n")
     cfg = ["CONSTANTS"] + ["  %s <- mc_%s" % (c, c) for c in CONSTS]
+    init, next_, view = d.get("init", init), d.get("next", next_), d.get("view", view)
     cfg += ["INIT %s" % init, "NEXT %s" % next_]
     if view:
         cfg.append("VIEW %s" % view)
